@@ -24,6 +24,7 @@ func ExitProduct(do func(id string, c Case), states string, withSecond bool) {
 		{"ebgp-h0", "s65001/65002/10/90/4/0000/0/00/0.0/A/i", "O,4,65002,0,7,a65002"},
 		{"ibgp-rr-h3", "s65001/65001/10/3/46/1100/1/00/1.5/D/a", "O,4,65001,3,7,a65001+m2.1+p1.1.3"},
 		{"ebgp-role-h30", "s200000/300000/2/30/4/0000/0/11/0.0/A/i", "O,4,23456,30,9,a300000+r3"},
+		{"ebgp-nopolicy", "s65001/65002/10/90/46/0000/01/00/0.0/NN/i", "O,4,65002,90,7,a65002+m1.1+m2.1"},
 	}
 	secondUp := "1.e1 1.up 1.m:O,4,65003,90,7,a65003 1.m:K 1.m:U,3.4,-"
 	conds := []struct{ name, evs string }{
@@ -36,6 +37,8 @@ func ExitProduct(do func(id string, c Case), states string, withSecond bool) {
 		"e1", "e2", "e3", "e8", "e100", "e4",
 		// connection
 		"up", "upx", "brk",
+		// policy replacement on the running session
+		"riA", "riD", "riR", "reD",
 		// timers
 		"hp0", "hp1", "ka", "cr",
 		// well-formed messages
@@ -181,6 +184,29 @@ func CapabilityProduct(do func(id string, c Case)) {
 							do(fmt.Sprintf("caps-%s-%s-%d-%d-%s-%d", fams, apS, mpnx, las, role, pi), c)
 						}
 					}
+				}
+			}
+		}
+	}
+}
+
+// PolicyProduct (C23/C07): import policy at session start x export policy at session start x two
+// replacements of the import policy on the running session, with UPDATEs (ordinary, with extra optional
+// attributes, with a looping AS path) between them, then an exit and a re-establishment.
+func PolicyProduct(do func(id string, c Case)) {
+	for _, i0 := range "NDAR" {
+		for _, e0 := range "NADR" {
+			for _, x := range "ADR" {
+				for _, y := range "ADR" {
+					in := fmt.Sprintf("s65001/65002/10/90/46/0000/0/00/0.0/%c%c/i 0.e1 0.up 0.m:O,4,65002,90,7,a65002+m2.1 0.m:K "+
+						"0.m:U,1.2,- 0.m:P,3,a,65001 0.ri%c 0.m:U,4,1 0.m:A,0,as4path 0.re%c 0.ri%c 0.m:U,-,2 0.m:A,2,unk 0.m:N,6,2 "+
+						"0.e1 0.up 0.m:O,4,65002,90,7,a65002+m2.1 0.m:K 0.m:U,1,-", i0, e0, x, y, y)
+					c, err := ParseCase(in)
+					if err != nil {
+						fmt.Printf("HARNESS-ERROR policy product %q: %v\n", in, err)
+						return
+					}
+					do(fmt.Sprintf("pol-%c%c-%c-%c", i0, e0, x, y), c)
 				}
 			}
 		}
